@@ -113,10 +113,13 @@ fn headers(rng: &mut Rng) -> Vec<(Vec<u8>, &'static str)> {
     v.push((b"}while(1);\r\n".to_vec(), "garbage+CRLF"));
     v.push((b")]}'ab\rcd\n".to_vec(), "CR-inside-header"));
     v.push((b")]}'\r\r\n".to_vec(), "CRCRLF"));
+    v.push((b")]}'\r)\n".to_vec(), "CR-then-junk-byte-then-LF"));
+    v.push((b")\r]\r\n".to_vec(), "CR-then-junk-byte-then-CRLF"));
+    v.push((b"}\r'})]\n".to_vec(), "CR-then-junk-bytes-then-LF"));
     v.push((b")]}'\n\n".to_vec(), "LF-LF"));
     let mut g = vec![*rng.pick(JUNK)];
     for _ in 0..rng.range_usize(0, 30) {
-        g.push(*rng.pick(b"abc )]}'{\"\\:,0\t"));
+        g.push(*rng.pick(b"abc )]}'{\"\\:,0\t)]}'\r"));
     }
     g.push(b'\n');
     v.push((g, "random-garbage+LF"));
@@ -213,7 +216,8 @@ pub fn run(ctx: &mut Ctx) {
                 // reference header rule: what the header must do to the document
                 match (reference_strip(&bytes), h.is_empty()) {
                     (None, _) => {
-                        ctx.bucket(if hkind.contains("bareCR") || hkind.contains("CR-inside") || *hkind == "CRCRLF" { "bare-CR-header" } else { "header-never-ends" });
+                        ctx.bucket(if hkind.contains("CR") { "bare-CR-header" } else { "header-never-ends" });
+                        ctx.bucket_if(hkind.starts_with("CR-then-junk"), "bare-CR-followed-by-junk-start-byte");
                         if let Outcome::Ok(_) = slice_out {
                             ctx.violation("bad-header-accepted", "docs", n, format!("decode_slice accepted a document behind a junk header with a bare CR / without end ({hkind})"), json!({"bytes": String::from_utf8_lossy(&bytes)}));
                         }
